@@ -40,3 +40,16 @@ pub fn get_grammar_hash(src: RustSrcRef) -> Option<&str> {
     }
     None
 }
+
+/// Verification hooks: re-exports of the otherwise private pipeline stages.
+/// Compiled only with `--cfg kylejlin_kiki_verif`; nothing else is changed.
+#[cfg(kylejlin_kiki_verif)]
+pub mod verif_hooks {
+    pub use crate::pipeline::machine_to_table::machine_to_table;
+    pub use crate::pipeline::parser::parse;
+    pub use crate::pipeline::table_to_rust::table_to_rust;
+    pub use crate::pipeline::tokenize::tokenize;
+    pub use crate::pipeline::unexpected_token_or_eof_to_kiki_err::unexpected_token_or_eof_to_kiki_err;
+    pub use crate::pipeline::validate_ast::validate_ast;
+    pub use crate::pipeline::validated_ast_to_machine::validated_ast_to_machine;
+}
